@@ -395,9 +395,22 @@ def pyMerge (base given : PMap) : PMap :=
   base.map (fun q => (q.1, (given.atKey q.1).getD q.2)) ++
     given.filter (fun p => !(base.any (fun q => q.1 == p.1)))
 
-/-- `mapping = inits if parameter_estimates is None else {**inits, **parameter_estimates}`
-    (evaluate_expression). -/
+/-- `d[k] = v` on an insertion-ordered dict. -/
+def pyInsert (m : PMap) (k : Key) (v : Expr) : PMap :=
+  if m.any (fun q => q.1 == k) then m.map (fun q => if q.1 == k then (q.1, v) else q) else m ++ [(k, v)]
+
+/-- `{str(key): value for key, value in parameter_estimates.items()}`. -/
+def normalise (m : PMap) : PMap :=
+  m.foldl (fun acc p => pyInsert acc (Key.str p.1.name) p.2) []
+
+/-- evaluate_expression since 20af928:
+    `inits if parameter_estimates is None else {**inits, **{str(key): value for key, value in parameter_estimates.items()}}`. -/
 def mergedMapping (inits : List (Sym × Expr)) : Option PMap → PMap
+  | none => initsMap inits
+  | some m => pyMerge (initsMap inits) (normalise m)
+
+/-- evaluate_expression before 20af928: `{**inits, **parameter_estimates}` (keys merged as Python objects). -/
+def mergedMappingOld (inits : List (Sym × Expr)) : Option PMap → PMap
   | none => initsMap inits
   | some m => pyMerge (initsMap inits) m
 
